@@ -3,7 +3,7 @@
    Parts 2 and 3 (reflection over the tables and database cases of the working tree): Properties_C12_X86.v, Properties_C12_A64.v.
    Statements only; proofs are in coq/theories/RwInfo/*Proofs.v. *)
 From Coq Require Import NArith ZArith List Bool.
-From Verif Require Import RwInfo.RwModel RwInfo.FeatModel RwInfo.RwSpec RwInfo.RwProofs RwInfo.RegWrite RwInfo.RegWriteProofs RwInfo.A64RwModel RwInfo.A64RwProofs RwInfo.FeatProofs.
+From Verif Require Import RwInfo.RwModel RwInfo.FeatModel RwInfo.RwSpec RwInfo.RwProofs RwInfo.RegWrite RwInfo.RegWriteProofs RwInfo.A64RwModel RwInfo.A64RwProofs RwInfo.FeatProofs RwInfo.BridgeC05 RegAlloc.RwRuleModel RegAlloc.RwRuleProofs.
 Import ListNotations.
 Local Open Scope N_scope.
 
@@ -118,3 +118,44 @@ Theorem C12_features_no_vl_with_zmm : forall T C q rep,
   ~ In (f_AVX512_VL C) rep.
 Proof. exact query_features_no_vl_with_zmm. Qed.
 Print Assumptions C12_features_no_vl_with_zmm.
+
+(* Bridge to C05 (register allocation validator).  C05 ASSUMES a reading of the byte masks (RwRuleProofs.hw_byte, registers as integers): byte i
+   becomes the result byte if i is in the write mask, 0 if only in the extend mask, else it keeps the old value.  For every low-aligned GP
+   destination, both modes, every old content and value, that reading - applied to the masks C12's model reports - IS the architectural result
+   of RegWrite.gp_write (registers as byte lists, z_of_bytes = little-endian value). *)
+Theorem C12_C05_byte_mask_readings_agree : forall mode64 d old val i,
+  d <> D8hi -> bytes_ok old -> bytes_ok val -> (i < 8)%nat ->
+  let o := reported_gp mode64 d (dest_size d) in
+  hw_byte (o_w o) (o_e o) (z_of_bytes old) (z_of_bytes val) i = Z.of_N (byte_at (gp_write mode64 d (dest_size d) old val) i).
+Proof. exact hw_byte_is_gp_write. Qed.
+Print Assumptions C12_C05_byte_mask_readings_agree.
+
+(* ... also for a 1..4-byte value zero-extended into a 32-bit destination, 64- and 32-bit mode. *)
+Theorem C12_C05_byte_mask_readings_agree_zero_extended : forall mode64 vw old val i,
+  (1 <= vw <= 4)%nat -> bytes_ok old -> bytes_ok val -> (i < 8)%nat ->
+  let o := reported_gp mode64 D32 vw in
+  hw_byte (o_w o) (o_e o) (z_of_bytes old) (z_of_bytes val) i = Z.of_N (byte_at (gp_write mode64 D32 vw old val) i).
+Proof. exact hw_byte_is_gp_write_zx. Qed.
+Print Assumptions C12_C05_byte_mask_readings_agree_zero_extended.
+
+(* Composition of C05_partial_write_rule with C12_gp_bytes_exact: with the masks C12's model reports, the use/def widths C05's classification
+   emits are justified by the ARCHITECTURAL semantics - old contents that agree on the emitted use widths give the same result bytes below
+   the emitted def width. *)
+Theorem C12_C05_partial_write_rule_architectural : forall mode64 d a64 id r us dw old old' val,
+  d <> D8hi -> bytes_ok old -> bytes_ok old' -> bytes_ok val ->
+  r_wmask r = o_w (reported_gp mode64 d (dest_size d)) -> r_emask r = o_e (reported_gp mode64 d (dest_size d)) ->
+  classify a64 id r = (us, [dw]) ->
+  (is_partial r = true -> old_agree us (z_of_bytes old) (z_of_bytes old')) ->
+  forall i, (i < dw)%nat -> (i < 8)%nat ->
+  byte_at (gp_write mode64 d (dest_size d) old val) i = byte_at (gp_write mode64 d (dest_size d) old' val) i.
+Proof. exact classify_sound_architectural. Qed.
+Print Assumptions C12_C05_partial_write_rule_architectural.
+
+(* The implicit-shape matching of rw_info_of (round 3) cannot change the answer for explicit forms: for all tables, when the operand count equals
+   the entry count of the record selected by operand count, or that record belongs to a special category, the record itself and the identity
+   operand map are used. *)
+Theorem C12_select_row_explicit : forall T ii nops,
+  let sel := if Nat.eqb nops 2 then nthN (t_rwa T) (ir_a ii) d_rw else nthN (t_rwb T) (ir_b ii) d_rw in
+  (entry_count sel = nops \/ (1 < rr_cat sel)%N) -> select_row T ii nops = (sel, seq 0 6).
+Proof. intros T ii nops sel [H | H]; [exact (select_row_explicit T ii nops H) | exact (select_row_special T ii nops H)]. Qed.
+Print Assumptions C12_select_row_explicit.
